@@ -13,6 +13,7 @@ import (
 	"regexp"
 	"strings"
 	"sync"
+	"syscall"
 	"time"
 )
 
@@ -118,6 +119,21 @@ type Module struct {
 var modCounter int
 var modMu sync.Mutex
 
+// guardDisk keeps the shared Go build cache from filling the disk: every scratch package leaves a
+// few MB of unique entries behind. Checked every few modules; wipes the cache when space runs low.
+func guardDisk() {
+	var st syscall.Statfs_t
+	if err := syscall.Statfs(os.TempDir(), &st); err != nil {
+		return
+	}
+	free := st.Bavail * uint64(st.Bsize)
+	if free < 30<<30 {
+		cmd := exec.Command("go", "clean", "-cache")
+		cmd.Env = goEnv()
+		_ = cmd.Run()
+	}
+}
+
 // NewModule creates a fresh scratch module.
 func NewModule() (*Module, error) {
 	if _, err := Gombok(); err != nil {
@@ -127,6 +143,9 @@ func NewModule() (*Module, error) {
 	modCounter++
 	n := modCounter
 	modMu.Unlock()
+	if n%8 == 1 {
+		guardDisk()
+	}
 	dir := filepath.Join(baseDir, fmt.Sprintf("m%d", n))
 	if err := writeModule(dir); err != nil {
 		return nil, err
